@@ -244,6 +244,16 @@ func (fr *Frame) call(st *State, v ssa.Value, cc *ssa.CallCommon, in ssa.Instruc
 			if err != nil {
 				return fr.unsupportedErr(in, err)
 			}
+			if fr.contract != nil && fr.contract.PureCallbacks[pn] && len(rs) == 1 {
+				// a pure callback is a function: of its arguments, and of what its pointer
+				// arguments point to (cbapp(f, ...) in specifications)
+				if ft, ferr := fr.value(cc.Value); ferr == nil && ft.Sort == SFunc {
+					if app, ok := vc.pureCallbackApp(st, ft, cc.Args, args, rs[0].Sort); ok {
+						st.assume(Eq(rs[0], app))
+						vc.assume("callback parameter " + pn + " is a deterministic function of its arguments and of the values its pointer arguments point to")
+					}
+				}
+			}
 			ck := "fncalls!" + pn
 			cur, ok := st.ghost[ck]
 			if !ok {
@@ -307,7 +317,17 @@ func (fr *Frame) staticCall(st *State, fn *ssa.Function, binds []Term, args []Te
 // callSiteChecks emits the call-site assertions of the enclosing contract.
 func (fr *Frame) callSiteChecks(st *State, cc *ssa.CallCommon, args []Term, in ssa.Instruction) {
 	vc := fr.vc
-	if fr.contract == nil || len(fr.contract.CallSites) == 0 {
+	// Calls made by an inlined callee (a helper without a contract of its own) are calls of the
+	// function under contract: its `@*` call-site clauses apply to them too, with the root
+	// function's parameters in scope. Without this, moving a call into a helper would make
+	// the clause silently vanish.
+	contract := fr.contract
+	nested := false
+	if fr.depth > 0 && vc.rootFr != nil && vc.rootFr.contract != nil && (contract == nil || len(contract.CallSites) == 0) {
+		contract = vc.rootFr.contract
+		nested = true
+	}
+	if contract == nil || len(contract.CallSites) == 0 {
 		return
 	}
 	var name string
@@ -357,9 +377,18 @@ func (fr *Frame) callSiteChecks(st *State, cc *ssa.CallCommon, args []Term, in s
 	qname := ""
 	if f, ok := cc.Value.(*ssa.Function); ok && f.Pkg != nil && f.Signature.Recv() == nil {
 		qname = f.Pkg.Pkg.Name() + "." + name
+	} else if ok && f.Signature.Recv() != nil {
+		// a method: <receiver type name>.<method>, to tell StateDiff.Merge from BloomFilter.Merge
+		rt := f.Signature.Recv().Type()
+		if pt, isPtr := types.Unalias(rt).(*types.Pointer); isPtr {
+			rt = pt.Elem()
+		}
+		if nt, isNamed := types.Unalias(rt).(*types.Named); isNamed {
+			qname = nt.Obj().Name() + "." + name
+		}
 	}
 	matched, qmatched := false, false
-	for _, cs := range fr.contract.CallSites {
+	for _, cs := range contract.CallSites {
 		if cs.Callee == name {
 			matched = true
 		}
@@ -370,18 +399,24 @@ func (fr *Frame) callSiteChecks(st *State, cc *ssa.CallCommon, args []Term, in s
 	if !matched && !qmatched {
 		return
 	}
+	// sites reached through inlined helpers are numbered and named with the root function's own
+	// sites: moving a call into a helper keeps the obligation's identity
+	csPath, namer := fr.path, fr
+	if nested {
+		csPath, namer = "", vc.rootFr
+	}
 	n, qn := 0, 0
 	if matched {
-		n = vc.ordinal("cs:" + fr.path + name)
+		n = vc.ordinal("cs:" + csPath + name)
 	}
 	if qmatched {
-		qn = vc.ordinal("cs:" + fr.path + qname)
+		qn = vc.ordinal("cs:" + csPath + qname)
 	}
 	names, tys := sigNames(sig, recvT)
 	if len(names) != len(all) {
 		return
 	}
-	for _, cs := range fr.contract.CallSites {
+	for _, cs := range contract.CallSites {
 		n, name := n, name
 		switch {
 		case matched && cs.Callee == name:
@@ -390,12 +425,16 @@ func (fr *Frame) callSiteChecks(st *State, cc *ssa.CallCommon, args []Term, in s
 		default:
 			continue
 		}
-		if cs.Ord != 0 && cs.Ord != n {
+		if cs.Ord != 0 && (cs.Ord != n || nested) {
 			continue
 		}
 		env := fr.baseEnv(st)
-		blk := in.Block()
-		env.lookup = func(nm string) (SpecVal, bool) { return fr.lookupLocal(nm, blk, st, nil) }
+		if nested {
+			env = vc.rootFr.baseEnv(st)
+		} else {
+			blk := in.Block()
+			env.lookup = func(nm string) (SpecVal, bool) { return fr.lookupLocal(nm, blk, st, nil) }
+		}
 		for i, nm := range names {
 			// positional names always; the callee's parameter name only if it does not
 			// hide a parameter of the enclosing function
@@ -409,7 +448,7 @@ func (fr *Frame) callSiteChecks(st *State, cc *ssa.CallCommon, args []Term, in s
 			vc.note("contract error: callsite %s@%d %s: %v", name, n, cs.Clause.Label, err)
 			continue
 		}
-		vc.addObl(&Obligation{Name: fr.oblName("callsite", fmt.Sprintf("%s.%s@%d", name, cs.Clause.Label, n)), Kind: "callsite", Reach: st.reach, Cond: t,
+		vc.addObl(&Obligation{Name: namer.oblName("callsite", fmt.Sprintf("%s.%s@%d", name, cs.Clause.Label, n)), Kind: "callsite", Reach: st.reach, Cond: t,
 			Taint: st.taint, Pos: fr.pos(in.Pos()), Descr: "at call of " + name + ": " + cs.Clause.Src})
 		st.assume(t)
 	}
@@ -1019,6 +1058,12 @@ func (fr *Frame) applyContract(st *State, c *FuncContract, key string, sig *type
 			rs = append(rs, app.res)
 			continue
 		}
+		// `ensures result == <parameter>` (methods that return their receiver): the result IS
+		// that argument, so that terms over it are shared instead of merely provably equal
+		if a, ok := resultIsParam(c, i, res.Len(), names, args, srt); ok {
+			rs = append(rs, a)
+			continue
+		}
 		f := vc.Fresh(fmt.Sprintf("%s_r%d", sanitize(sk), i), srt)
 		st.assume(vc.rangeAssumption(f, res.At(i).Type(), st.alloc))
 		rs = append(rs, f)
@@ -1085,6 +1130,8 @@ func (fr *Frame) applyContract(st *State, c *FuncContract, key string, sig *type
 func (vc *VC) havocModifies(st *State, env *SpecEnv, mods []*Expr, hints map[string]types.Type) error {
 	type rng struct{ cond string }
 	per := map[Sort][]string{}
+	perRefs := map[Sort][]Term{} // the objects written, per sort (for read-over-write resolution)
+	exactRefs := true
 	q := Term{"q!r", SRef}
 	var wholeObjects []Term // rid terms of objects that may change in every sort
 	addRegion := func(addr Term, t types.Type, count Term) {
@@ -1103,6 +1150,7 @@ func (vc *VC) havocModifies(st *State, env *SpecEnv, mods []*Expr, hints map[str
 		}
 		for _, s := range sortedKeys(leaf) {
 			per[s] = append(per[s], cond)
+			perRefs[s] = append(perRefs[s], addr)
 		}
 	}
 	for _, m := range mods {
@@ -1126,12 +1174,14 @@ func (vc *VC) havocModifies(st *State, env *SpecEnv, mods []*Expr, hints map[str
 						cond := And(Eq(Rid(q), Rid(addr)), Le(Roff(addr), Roff(q)), Lt(Roff(q), Add(Roff(addr), IntLit(slots)))).S
 						for _, s := range sortedKeys(leaf) {
 							per[s] = append(per[s], cond)
+							perRefs[s] = append(perRefs[s], addr)
 						}
 						continue
 					}
 				}
 			}
 			wholeObjects = append(wholeObjects, Rid(IRefOf(x.T)))
+			exactRefs = false
 			continue
 		}
 		if m.Kind == ESlice {
@@ -1189,6 +1239,9 @@ func (vc *VC) havocModifies(st *State, env *SpecEnv, mods []*Expr, hints map[str
 		st.heaps[s] = nh
 		st.touch(s)
 		vc.heapReg[s] = true
+		if exactRefs && len(perRefs[s]) == len(per[s]) {
+			vc.noteLayer(nh, old, perRefs[s]...)
+		}
 	}
 	return nil
 }
@@ -1993,4 +2046,80 @@ func callbackName(v ssa.Value) (string, bool) {
 		}
 	}
 	return "", false
+}
+
+// pureCallbackApp: the value of a pure callback as an uninterpreted function of the function
+// value, its non-pointer arguments and the pointees of its pointer arguments.
+func (vc *VC) pureCallbackApp(st *State, fn Term, vals []ssa.Value, args []Term, res Sort) (Term, bool) {
+	all := []Term{fn}
+	for i, a := range args {
+		if i < len(vals) {
+			if pt, ok := U(vals[i].Type()).(*types.Pointer); ok && !vc.tt.isAggregate(pt.Elem()) {
+				v, err := vc.loadRaw(st, a, pt.Elem())
+				if err != nil {
+					return Term{}, false
+				}
+				all = append(all, v)
+				continue
+			}
+		}
+		all = append(all, a)
+	}
+	return vc.cbApp(all, res), true
+}
+
+func (vc *VC) cbApp(all []Term, res Sort) Term {
+	name := "cbapp"
+	sorts := make([]Sort, len(all))
+	for i, a := range all {
+		sorts[i] = a.Sort
+		if i > 0 {
+			name += "!" + sanitize(string(a.Sort))
+		}
+	}
+	name += "!!" + sanitize(string(res))
+	vc.DeclareFun(name, sorts, res)
+	return App(res, name, all...)
+}
+
+// resultIsParam: the contract has an unconditional clause `result<i> == p` for a parameter p.
+func resultIsParam(c *FuncContract, i, n int, names []string, args []Term, srt Sort) (Term, bool) {
+	isRes := func(e *Expr) bool {
+		return e.Kind == EIdent && (e.Name == fmt.Sprintf("result%d", i) || (n == 1 && e.Name == "result"))
+	}
+	param := func(e *Expr) (Term, bool) {
+		if e.Kind != EIdent {
+			return Term{}, false
+		}
+		for k, nm := range names {
+			if nm == e.Name && args[k].Sort == srt {
+				return args[k], true
+			}
+		}
+		return Term{}, false
+	}
+	var scan func(e *Expr) (Term, bool)
+	scan = func(e *Expr) (Term, bool) {
+		if e.Kind == EBinary && e.Op == "&&" {
+			if t, ok := scan(e.Args[0]); ok {
+				return t, true
+			}
+			return scan(e.Args[1])
+		}
+		if e.Kind == EBinary && e.Op == "==" {
+			if isRes(e.Args[0]) {
+				return param(e.Args[1])
+			}
+			if isRes(e.Args[1]) {
+				return param(e.Args[0])
+			}
+		}
+		return Term{}, false
+	}
+	for _, en := range c.Ensures {
+		if t, ok := scan(en.E); ok {
+			return t, true
+		}
+	}
+	return Term{}, false
 }
